@@ -526,3 +526,46 @@ class ProductPurity(Lemma):
 
 
 UNITS += [Averages(), DefaultTimes(), ProductPurity()]
+
+
+class PayoffLeavesItsArgument(Lemma):
+    """frame condition behind "the value depends only on the path": evaluating a payoff on an array of underlyings does not
+    modify that array (it may be a view of the simulated path that other products read) -- Rainbow (call / put, 3
+    performances of any order), Vanilla with a strike vector, Digital, CallSpread."""
+    prop = "C17"
+    cases = ("Rainbow-call", "Rainbow-put", "Vanilla-vector")      # the payoffs that take an ARRAY of underlyings
+
+    def __init__(self):
+        self.name = "property:payoff-evaluation-leaves-the-underlying-array-untouched"
+
+    def prove(self, vc, case):
+        nm = f"{self.name}[{case}]"
+        PAY = "rpylib.product.payoff:"
+        PT = lambda m: vc.enum(PAY + "PayoffType", m)
+        u = np.array(vc.reals("underlying", 3), dtype=object)
+        before = list(u)
+        if case.startswith("Rainbow"):
+            p = vc.new(PAY + "Rainbow", [0.5, 0.3, 0.2], vc.real("strike"), PT("CALL" if case.endswith("call") else "PUT"))
+        elif case == "Vanilla-vector":
+            p = vc.new(PAY + "Vanilla", np.array(vc.reals("strikes", 3), dtype=object), PT("CALL"))
+        elif case == "Digital":
+            p = vc.new(PAY + "Digital", vc.real("strike"), PT("CALL"))
+        else:
+            k1, k2 = vc.real("k1"), vc.real("k2")
+            vc.assume(k1 < k2)
+            p = vc.new(PAY + "CallSpread", k1, k2)
+        vc.method(p, "evaluate", u)
+        vc.check(nm + "::argument-unchanged", And(*[compare(x, y, "==") for x, y in zip(list(u), before)]))
+
+    def replay(self, model, clause, case):
+        from rpylib.product.payoff import Rainbow, Vanilla, Digital, CallSpread, PayoffType
+        u = np.array([1.3, 0.7, 1.1])
+        keep = u.copy()
+        p = {"Rainbow-call": lambda: Rainbow([0.5, 0.3, 0.2], 1.0, PayoffType.CALL), "Rainbow-put": lambda: Rainbow([0.5, 0.3, 0.2], 1.0, PayoffType.PUT),
+             "Vanilla-vector": lambda: Vanilla(np.array([0.9, 1.0, 1.2]), PayoffType.CALL), "Digital": lambda: Digital(1.0, PayoffType.CALL),
+             "CallSpread": lambda: CallSpread(0.9, 1.2)}[case]()
+        p.evaluate(u)
+        return (not np.array_equal(u, keep), {"payoff": case, "argument_before": keep.tolist(), "argument_after": u.tolist()})
+
+
+UNITS += [PayoffLeavesItsArgument()]
